@@ -135,7 +135,7 @@ PROPS = {
         "units": [("source", r"get_char_column|position_for_offset"), "traversal", ("positions", r"Position|start_pos|end_pos|range")],
         "kani": [],
         "decided": ["line/column positions: position_for_offset == (line breaks before, bytes since the last one); get_char_column == characters since the last line break",
-                    "Pre (pre-order / dfs, the iterator behind find_all and Visitor): new() starts with exactly preorder(subtree), every next() yields the head of the remaining pre-order and leaves its tail, None only when nothing is left -- every node of the subtree once, in order, never outside (relative to the T-cursor axioms)"],
+                    "Pre (pre-order / dfs, the iterator behind find_all and Visitor): new() starts with exactly preorder(subtree), every next() yields the head of the remaining pre-order and leaves its tail, None only when nothing is left -- every node of the subtree once, in order, never outside (relative to the T-cursor axioms)",
                     "Post (post-order): new() starts with exactly postorder(subtree); every next() yields the head of the remaining post-order and leaves its tail (trace_down / step_up under contract)",
                     "Level (level-order): new() queues the start node; every next() is one breadth-first step (head yielded, its children appended behind the queue)",
                     "Position::column / Node::start_pos / end_pos / range: line == line breaks before the byte offset, column == characters since the last one"],
